@@ -25,7 +25,7 @@ def native_confirm(prop, res, sc, repo='/repo'):
     worlds = res['world']
     name = res['name']
     if name in ('skipped_only_if_recorded_and_unchanged', 'no_record_no_skip', 'failed_or_cancelled_never_skipped'):
-        mode = 'ok' if res.get('script_result', 0) == 0 else 'fail'
+        mode = {0: 'ok', 1: 'cancel'}.get(res.get('script_result', 0), 'fail')      # 1 = the build was cancelled by zinoma itself
         obs = incr_native.replay_runs(sc, worlds, [{'epoch': 1, 'mode': mode}, {'epoch': 2, 'mode': 'ok'}], repo)
         return (obs[1]['skipped'] and not obs[1]['script_spawned']), obs
     if name in ('unchanged_tree_is_skipped', 'record_stored_after_success'):
